@@ -141,7 +141,65 @@ def two_list_defects(n, ind1, ind2, kind):
     return ([] if got == want else ["reader-ranks-two-lists"]), text
 
 
+def two_digit_defects(t1, t2, o1, o2, kind):
+    """11 x 11 with the pairs (1,11) and (11,1): second-side lists of agents 1
+    and 11 both rank students 1 and 11, in orders o1/o2 with tie decisions
+    t1/t2 (ids whose decimal strings concatenate equally must not collide)."""
+    import numpy as np
+    from matchingproblems.solver.solver import Solver
+    n = 11
+    res = [np.array([r]) for r in range(1, n + 1)]
+    res[0] = np.array([1, 11])
+    res[10] = np.array([11, 1])
+    zeros = [np.array([0] * len(r)) for r in res]
+    lists = [np.array([h]) for h in range(1, n + 1)]
+    lists[0] = np.array([1, 11] if o1 == 0 else [11, 1])
+    lists[10] = np.array([1, 11] if o2 == 0 else [11, 1])
+    ties = [np.array([0]) for _ in range(n)]
+    ties[0] = np.array([t1, 0])
+    ties[10] = np.array([t2, 0])
+    try:
+        if kind == 2:
+            from matchingproblems.generator.generator_ha_sm_hr import Generator_ha_sm_hr
+            text = Generator_ha_sm_hr().create_instance(n, n, res, zeros, lists, ties,
+                                                        [0] * n, [1] * n, "info\n")
+        else:
+            from matchingproblems.generator.generator_spa import Generator_spa
+            text = Generator_spa().create_instance(n, n, n, res, zeros, list(range(1, n + 1)),
+                                                   [0] * n, [1] * n, lists, ties,
+                                                   [0] * n, [1] * n, [1] * n, "info\n")
+    except Exception as e:     # noqa
+        return ["writer-exc:" + lprun.exc_fingerprint(e)], None
+    path = lprun.inst_file(text, "ties11.txt")
+    try:
+        with lprun._Quiet():
+            S = Solver(["-f", path, "-na", str(kind), "-twopl"])
+    except Exception as e:     # noqa
+        return ["reader-exc:" + lprun.exc_fingerprint(e)], text
+    want = {}
+    for h in range(1, n + 1):
+        lst = [int(x) for x in lists[h - 1]]
+        ind = [int(x) for x in ties[h - 1]]
+        for gi, g in enumerate(expected_groups(lst, ind)):
+            for x in g:
+                want[(x, h)] = gi + 1
+    got = {(p.studentID, p.projectID): p.rank_lecturer for row in S.model.pairs for p in row}
+    return ([] if got == want else ["reader-ranks-two-digit-ids"]), text
+
+
 def work(item, tally):
+    if item[0] == "digits":
+        kind = item[1]
+        for t1, t2, o1, o2 in itertools.product((0, 1), repeat=4):
+            tally.inc("evaluations")
+            tally.inc("nontrivial")
+            d, text = two_digit_defects(t1, t2, o1, o2, kind)
+            if d:
+                tally.violation({"n": 11, "indicators": [t1, t2, o1, o2], "digits": True,
+                                 "kind": kind, "file": text, "fingerprint": ",".join(sorted(d)),
+                                 "what": "11 x 11 file, lists of agents 1 and 11 with ties %r/%r "
+                                         "orders %r/%r: %s" % (t1, t2, o1, o2, d)})
+        return
     if item[0] == "two":
         _, n, kind = item
         for ind1 in itertools.product((0, 1), repeat=n):
@@ -179,6 +237,7 @@ def main(tier):
     items = [(n, side, kind) for n in range(N, 0, -1) for side in (1, 2) for kind in (2, 3)]
     N2 = 4 if tier == "quick" else 6
     items += [("two", n, kind) for n in range(N2, 1, -1) for kind in (2, 3)]
+    items += [("digits", 2), ("digits", 3)]
     tally = pool.run(work, items, chunksize=1)
     c = tally.c
     coverage = {
@@ -199,7 +258,9 @@ def main(tier):
 def replay(path):
     with open(path) as f:
         p = json.load(f)
-    if p.get("two"):
+    if p.get("digits"):
+        d, text = two_digit_defects(*p["indicators"], p["kind"])
+    elif p.get("two"):
         d, text = two_list_defects(p["n"], tuple(p["indicators"][0]), tuple(p["indicators"][1]),
                                    p["kind"])
     else:
